@@ -11,6 +11,7 @@ import JanetModel.Marsh.IntCodecLemmas
 import JanetModel.Marsh.SizeLemmas
 import JanetModel.Marsh.GraphRoundtrip
 import JanetModel.Marsh.GraphInbounds
+import JanetModel.Asm.OperandLemmas
 
 namespace JanetModel.Props.C09
 open JanetModel.Marsh JanetModel.Gen.Marsh
@@ -100,6 +101,36 @@ theorem read_total_inbounds (fuel n : Nat) (data : List Nat) (v : Val) (rest : L
 /-- Truncated input is rejected, not over-read: the empty buffer decodes to nothing at every depth. -/
 theorem unmarshal_nil (fuel n : Nat) : unmarshalOne fuel n [] = none := by
   cases fuel <;> simp [unmarshalOne]
+
+/-! ### assembler operands (asm ∘ disasm)
+
+`doarg` (asm.c) range-checks every operand of an instruction before placing it in the word; the disassembler and the VM
+read the field back by shifting and masking.  The operand layout of every instruction type and the lower-bound formula
+are generated from the current asm.c. -/
+
+/-- **Every value a field can hold is accepted by the assembler and reads back as itself** - for every instruction type
+of the generated table, every operand of it, and every value in the two's-complement (resp. unsigned) range of the
+operand's width; in particular the minimum (-128, -32768, -8388608) that the compiler emits for `(+ x -128)` or a literal
+-32768.  (If `doarg` computes `min` as `-max`, `doargMinSlack` is generated as 0 and this no longer checks.) -/
+theorem asm_operand_roundtrip (t : JanetModel.Gen.Bytecode.IType) (f : JanetModel.Gen.Asm.Field)
+    (hf : f ∈ JanetModel.Gen.Asm.fieldsOf t) (arg : Int) (h : JanetModel.Asm.Encodable f arg) :
+    ∃ w, JanetModel.Asm.doarg f arg = some w ∧ JanetModel.Asm.fieldRead f w = arg :=
+  JanetModel.Asm.doarg_roundtrip' f (JanetModel.Asm.fields_ok t f hf) arg h
+
+/-- the assembler accepts nothing outside the field (so no operand is silently truncated) -/
+theorem asm_operand_rejects (f : JanetModel.Gen.Asm.Field) (arg : Int) (w : Nat)
+    (h : JanetModel.Asm.doarg f arg = some w) :
+    JanetModel.Asm.fieldMin f ≤ arg ∧ arg ≤ JanetModel.Asm.fieldMax f := by
+  unfold JanetModel.Asm.doarg at h
+  by_cases c1 : arg < JanetModel.Asm.fieldMin f
+  · simp [c1] at h
+  · by_cases c2 : arg > JanetModel.Asm.fieldMax f
+    · simp [c1, c2] at h
+    · omega
+
+example : JanetModel.Asm.encode .addImmediate [0, 1, -128] = some 0x80010005 := by decide
+example : JanetModel.Asm.encode .loadInteger [0, -32768] = some (0x80000000 ||| JanetModel.Gen.Bytecode.Op.loadInteger.toNat) := by decide
+example : JanetModel.Asm.encode .loadInteger [0, -32769] = none := by decide
 
 /-- non-vacuity: boundary values of each width -/
 example : readint (pushint (-8193) ++ [7]) = some (-8193, [7]) := by decide
